@@ -128,6 +128,33 @@ pub fn c04_configs(tier: Tier) -> Vec<InCfg> {
             if ver == Ver::V5 {
                 alphabet.push(T::Auth);
             }
+            if bp == 0 && !cork {
+                // requests that produce no response packet (QoS 0 publish) between requests that do: their
+                // queue slot is released without a write and the responses parked behind it must still be
+                // drained (seeded change C04_r4). Smaller alphabet, same length.
+                let mut ep0 = ep.clone();
+                ep0.tag = "EP";
+                v.push(InCfg {
+                    ep: ep0,
+                    connect_props: vec![],
+                    alphabet: vec![
+                        T::Pub { qos: 0, id: 0, len: 1, topic: 0, alias: 0 },
+                        T::Pub { qos: 1, id: 0, len: 1, topic: 0, alias: 0 },
+                        T::Ping,
+                        T::Sub(0),
+                    ],
+                    prologue: vec![],
+                    max_len: if tier == Tier::Quick { 4 } else { 5 },
+                    outcomes: vec![GateOutcome::Ok],
+                    poutcomes: vec![GateOutcome::Ok],
+                    cork,
+                    judge: J_C04,
+                    app_sends: vec![],
+                    skip_connect: false,
+                    known: vec![],
+                    bp,
+                });
+            }
             v.push(InCfg {
                 ep,
                 connect_props: vec![],
@@ -187,7 +214,7 @@ pub fn run_c04(tier: Tier) -> i32 {
         }
     }
     ck.rule = format!(
-        "v3 and v5 server: every sequence of up to {} requests over {{PUBLISH q1, PUBLISH q2, PUBREL, PINGREQ, SUBSCRIBE, UNSUBSCRIBE, (v5) AUTH}} with distinct packet ids; publish handler and protocol service each immediately-ready or gated; arrivals one per read or corked into arbitrary groups; handler completions in every order; two variants with write back-pressure episodes (the peer stops / resumes reading at any quiescent point, 1 episode with an 8-byte or 2 episodes with a 4-byte high watermark of the write buffer, so that the dispatcher's back-pressure state is entered after two / one buffered responses); {} injection(s) while tasks are runnable (quick: full length without injection, one request fewer with one). Oracle after every step: handler-produced responses on the wire are a prefix of the request order; at the end of healthy runs they are exactly the request order",
+        "v3 and v5 server: every sequence of up to {} requests over {{PUBLISH q1, PUBLISH q2, PUBREL, PINGREQ, SUBSCRIBE, UNSUBSCRIBE, (v5) AUTH}} with distinct packet ids (and, without back-pressure, over {{PUBLISH q0 - a request without a response packet -, PUBLISH q1, PINGREQ, SUBSCRIBE}}); publish handler and protocol service each immediately-ready or gated; arrivals one per read or corked into arbitrary groups; handler completions in every order; two variants with write back-pressure episodes (the peer stops / resumes reading at any quiescent point, 1 episode with an 8-byte or 2 episodes with a 4-byte high watermark of the write buffer, so that the dispatcher's back-pressure state is entered after two / one buffered responses); {} injection(s) while tasks are runnable (quick: full length without injection, one request fewer with one). Oracle after every step: handler-produced responses on the wire are a prefix of the request order; at the end of healthy runs they are exactly the request order",
         if tier == Tier::Quick { 4 } else { 5 },
         ecfg.max_dev
     );
